@@ -1,0 +1,476 @@
+//go:build verif
+
+package table
+
+import (
+	"bytes"
+
+	enc "github.com/named-data/ndnd/std/encoding"
+)
+
+// Contracts for property C05 (FIB lookup is longest-prefix match under every update history).
+// Verified with the merged gcv engine (/verif/gcv).
+
+func forall(f any) bool { panic("ghost") }
+
+func exists(f any) bool { panic("ghost") }
+
+func sliceArr(s any) int { panic("ghost") }
+
+func existsIn(lo, hi int, f func(int) bool) bool {
+	for i := lo; i < hi; i++ {
+		if f(i) {
+			return true
+		}
+	}
+	return false
+}
+
+// element storage of all child lists / next-hop lists, for `modifies all(...)`
+type fibKidsSliceT = []*fibStrategyTreeEntry
+type fibHopsSliceT = []*FibNextHopEntry
+
+// fibCompEq: two name components are equal (same type, same value bytes).
+func fibCompEq(a, b enc.Component) bool { return a.Typ == b.Typ && bytes.Equal(a.Val, b.Val) }
+
+// ---------------------------------------------------------------------------------------
+// name tree: representation invariant (stated for every allocated node; the zero node satisfies it)
+// ---------------------------------------------------------------------------------------
+
+// fibUpWf: depth = parent depth + 1 (a node without parent is a root; depths are not negative).
+func fibUpWf() bool {
+	return forall(func(n *fibStrategyTreeEntry) bool {
+		return n.depth >= 0 && (n.parent == nil || n.depth == n.parent.depth+1)
+	})
+}
+
+// fibKidsWf: every child link is mirrored by the parent link.
+func fibKidsWf() bool {
+	return forall(func(n *fibStrategyTreeEntry, i int) bool {
+		return implies(0 <= i && i < len(n.children), n.children[i] != nil && n.children[i].parent == n)
+	})
+}
+
+// fibSep: two nodes never share the storage of their child lists (append/copy on one list cannot disturb another).
+func fibSep() bool {
+	return forall(func(a *fibStrategyTreeEntry, b *fibStrategyTreeEntry) bool {
+		return implies(a != b && cap(a.children) > 0 && cap(b.children) > 0, sliceArr(a.children) != sliceArr(b.children))
+	})
+}
+
+// fibLive: n is a node of the tree of f (the root, or a node that has a parent). References that are not tree nodes
+// (objects of other types allocated meanwhile) have a nil parent and are not the root; the invariants that read the fields of the
+// embedded baseFibStrategyEntry are stated for live nodes only (the engine zeroes own allocations only in the direct
+// fields of a foreign reference, not in derived references of embedded structs).
+func fibLive(f *FibStrategyTree, n *fibStrategyTreeEntry) bool { return n == f.root || n.parent != nil }
+
+// fibCapWf: a non-empty child list has capacity (Go slice invariant len <= cap, needed under the quantifier of fibSep).
+func fibCapWf() bool {
+	return forall(func(n *fibStrategyTreeEntry) bool { return implies(len(n.children) > 0, cap(n.children) > 0) })
+}
+
+// fibHopCapWf: the same for next-hop lists.
+func fibHopCapWf(f *FibStrategyTree) bool {
+	return forall(func(n *fibStrategyTreeEntry) bool {
+		return implies(fibLive(f, n) && len(n.nexthops) > 0, cap(n.nexthops) > 0)
+	})
+}
+
+// fibHopsWf: next-hop lists hold no nil record.
+func fibHopsWf(f *FibStrategyTree) bool {
+	return forall(func(n *fibStrategyTreeEntry, i int) bool {
+		return implies(fibLive(f, n) && 0 <= i && i < len(n.nexthops), n.nexthops[i] != nil)
+	})
+}
+
+// fibHopSep: two nodes never share the storage of their next-hop lists.
+func fibHopSep(f *FibStrategyTree) bool {
+	return forall(func(a *fibStrategyTreeEntry, b *fibStrategyTreeEntry) bool {
+		return implies(a != b && fibLive(f, a) && fibLive(f, b) && cap(a.nexthops) > 0 && cap(b.nexthops) > 0, sliceArr(a.nexthops) != sliceArr(b.nexthops))
+	})
+}
+
+// fibOneRoot: the only parentless node that other nodes hang below is the root of the table.
+func fibOneRoot(f *FibStrategyTree) bool {
+	return f.root != nil && f.root.parent == nil && f.root.depth == 0 &&
+		forall(func(m *fibStrategyTreeEntry) bool {
+			return implies(m.parent != nil && m.parent.parent == nil, m.parent == f.root)
+		})
+}
+
+// fibAtPrefix: n is (locally) the node of the prefix name[:n.depth] below root: it is the root, or it carries the
+// component of name at its depth.
+func fibAtPrefix(root *fibStrategyTreeEntry, n *fibStrategyTreeEntry, name enc.Name) bool {
+	return n != nil && n.depth <= len(name) &&
+		(n == root || (n.parent != nil && fibCompEq(name[n.depth-1], n.component)))
+}
+
+// fibNoLonger: n has no child that continues the name ("longest").
+func fibNoLonger(n *fibStrategyTreeEntry, name enc.Name) bool {
+	return implies(n.depth < len(name), forallIn(0, len(n.children), func(i int) bool {
+		return !fibCompEq(name[n.depth], n.children[i].component)
+	}))
+}
+
+// fibHopNode: nearest node at or above n that holds next hops (nil if there is none).
+func fibHopNode(n *fibStrategyTreeEntry) *fibStrategyTreeEntry {
+	if n == nil {
+		return nil
+	}
+	if len(n.nexthops) > 0 {
+		return n
+	}
+	return fibHopNode(n.parent)
+}
+
+// fibStratNode: nearest node at or above n that holds a strategy (nil if there is none).
+func fibStratNode(n *fibStrategyTreeEntry) *fibStrategyTreeEntry {
+	if n == nil {
+		return nil
+	}
+	if n.strategy != nil {
+		return n
+	}
+	return fibStratNode(n.parent)
+}
+
+// fibHopsOf: r lists exactly the next-hop records of e, in order (nothing if e is nil).
+func fibHopsOf(e *fibStrategyTreeEntry, r []*FibNextHopEntry) bool {
+	if e == nil {
+		return len(r) == 0
+	}
+	return len(r) == len(e.nexthops) && forallIn(0, len(r), func(i int) bool { return r[i] == e.nexthops[i] })
+}
+
+// fibLinked: c is currently listed among the children of its parent.
+func fibLinked(c *fibStrategyTreeEntry) bool {
+	return c.parent != nil && existsIn(0, len(c.parent.children), func(i int) bool { return c.parent.children[i] == c })
+}
+
+// fibEmpty: c carries no information: no children, no next hops, no strategy.
+func fibEmpty(c *fibStrategyTreeEntry) bool {
+	return len(c.children) == 0 && len(c.nexthops) == 0 && c.strategy == nil
+}
+
+// ---------------------------------------------------------------------------------------
+// name tree: searches
+// ---------------------------------------------------------------------------------------
+
+// The deepest node on the path spelled by name: on the path (locally: it carries the right component), and no child
+// continues the name.
+//
+//@ func (*fibStrategyTreeEntry).findLongestPrefixEntryEnc
+//@   invariant fibUpWf()
+//@   invariant fibKidsWf()
+//@   decreases len(name) - f.depth
+//@   ensures result != nil && result.depth >= f.depth && (result.depth <= len(name) || result == f)
+//@   ensures [on-path] result == f || (result.parent != nil && fibCompEq(name[result.depth-1], result.component))
+//@   ensures [maximal] fibNoLonger(result, name)
+//@   loop 1 invariant forallIn(0, rangeindex+1, func(i int) bool { return !fibCompEq(name[f.depth], f.children[i].component) })
+
+//@ func (*fibStrategyTreeEntry).findExactMatchEntryEnc
+//@   invariant fibUpWf()
+//@   invariant fibKidsWf()
+//@   decreases len(name) - f.depth
+//@   ensures len(name) < f.depth ==> result == nil
+//@   ensures len(name) == f.depth ==> result == f
+//@   ensures [exact] result != nil && len(name) >= f.depth ==> result.depth == len(name)
+//@   ensures [on-path] result != nil && result != f ==> result.parent != nil && fibCompEq(name[len(name)-1], result.component)
+//@   ensures [linked] result == nil || result == f || fibLinked(result)
+//@   ensures [absent] result == nil && len(name) == f.depth+1 ==> forallIn(0, len(f.children), func(i int) bool { return !fibCompEq(name[f.depth], f.children[i].component) })
+//@   loop 1 invariant forallIn(0, rangeindex+1, func(i int) bool { return !fibCompEq(name[f.depth], f.children[i].component) })
+
+// ---------------------------------------------------------------------------------------
+// name tree: growing and pruning
+// ---------------------------------------------------------------------------------------
+
+// fillTreeToPrefixEnc: find-or-create the node of `name`. It only ADDS child links below existing nodes: every old
+// link stays where it was, no value (next hops, strategy, name) of any node is touched (frame), created nodes are empty.
+//
+//@ func (*FibStrategyTree).fillTreeToPrefixEnc
+//@   option heap-closedness
+//@   invariant fibUpWf()
+//@   invariant fibKidsWf()
+//@   invariant fibSep()
+//@   invariant fibCapWf()
+//@   invariant fibOneRoot(f)
+//@   modifies all(fibStrategyTreeEntry.children), all(fibKidsSliceT)
+//@   ensures result != nil && result.depth == len(name)
+//@   ensures [at-prefix] fibAtPrefix(f.root, result, name)
+//@   ensures [new-empty] forall(func(n *fibStrategyTreeEntry) bool { return fresh(n) && n.parent != nil ==> len(n.nexthops) == 0 && cap(n.nexthops) == 0 && n.strategy == nil && n.name == nil })
+//@   ensures [links-kept] forall(func(n *fibStrategyTreeEntry, i int) bool { return !fresh(n) && 0 <= i && i < old(len(n.children)) ==> i < len(n.children) && n.children[i] == old(n.children[i]) })
+//@   loop 1 invariant curNode != nil && depth == curNode.depth+1 && depth <= len(name)+1
+//@   loop 1 invariant fibAtPrefix(f.root, curNode, name)
+//@   loop 1 invariant forall(func(n *fibStrategyTreeEntry) bool { return fresh(n) && n.parent != nil ==> len(n.nexthops) == 0 && cap(n.nexthops) == 0 && n.strategy == nil && n.name == nil })
+//@   loop 1 invariant forall(func(n *fibStrategyTreeEntry, i int) bool { return !fresh(n) && 0 <= i && i < old(len(n.children)) ==> i < len(n.children) && n.children[i] == old(n.children[i]) })
+
+// pruneIfEmpty (property: "removes every childless, entry-less ancestor up to the root"):
+//   [self-pruned]      an empty non-root f is unlinked from its parent;
+//   [ancestors-pruned] afterwards no node is a linked, childless, entry-less non-root unless it already was one before
+//                      (so every ancestor that BECOMES empty through the pruning is pruned as well);
+//   [parent-pruned]    the one-level instance of the same clause, for f's parent;
+//   [only-empty]       only empty nodes are unlinked (nothing that holds a value or children is lost);
+//   values of all nodes are untouched (frame).
+//
+//@ func (*fibStrategyTreeEntry).pruneIfEmpty
+//@   invariant fibUpWf()
+//@   invariant fibKidsWf()
+//@   invariant fibSep()
+//@   invariant fibCapWf()
+//@   invariant fibKidsUniq()
+//@   modifies all(fibStrategyTreeEntry.children), all(fibKidsSliceT)
+//@   ensures [self-pruned] old(f.parent != nil && fibEmpty(f)) ==> !fibLinked(f)
+//@   ensures [kept-if-full] old(f.parent == nil || !fibEmpty(f)) ==> forall(func(n *fibStrategyTreeEntry) bool { return sameSlice(n.children, old(n.children)) })
+//@   ensures [parent-pruned] old(f.parent != nil && fibEmpty(f) && fibLinked(f) && f.parent.parent != nil && len(f.parent.children) == 1 && len(f.parent.nexthops) == 0 && f.parent.strategy == nil) ==> !fibLinked(f.parent)
+//@   ensures [ancestors-pruned] forall(func(n *fibStrategyTreeEntry) bool { return n.parent != nil && fibEmpty(n) && fibLinked(n) ==> old(fibEmpty(n)) })
+//@   ensures [only-empty] forall(func(c *fibStrategyTreeEntry) bool { return old(fibLinked(c)) && !fibLinked(c) ==> fibEmpty(c) })
+//@   loop 1 invariant curNode != nil && curNode.depth <= f.depth && (curNode != f ==> curNode.depth < f.depth)
+//@   loop 1 invariant curNode == f ==> forall(func(n *fibStrategyTreeEntry) bool { return sameSlice(n.children, old(n.children)) })
+//@   loop 1 invariant curNode != f ==> old(f.parent != nil && fibEmpty(f)) && !fibLinked(f) && (old(fibLinked(f)) ==> len(f.parent.children) == old(len(f.parent.children))-1)
+//@   loop 1 invariant forall(func(n *fibStrategyTreeEntry) bool { return n != curNode && n.parent != nil && fibEmpty(n) && fibLinked(n) ==> old(fibEmpty(n)) })
+//@   loop 1 invariant forall(func(c *fibStrategyTreeEntry) bool { return old(fibLinked(c)) && !fibLinked(c) ==> fibEmpty(c) })
+//@   loop 2 invariant curNode != nil && curNode.parent != nil && curNode.depth <= f.depth && (curNode != f ==> curNode.depth < f.depth) && fibEmpty(curNode)
+//@   loop 2 invariant curNode == f ==> forall(func(n *fibStrategyTreeEntry) bool { return sameSlice(n.children, old(n.children)) })
+//@   loop 2 invariant curNode != f ==> old(f.parent != nil && fibEmpty(f)) && !fibLinked(f) && (old(fibLinked(f)) ==> len(f.parent.children) == old(len(f.parent.children))-1)
+//@   loop 2 invariant forall(func(n *fibStrategyTreeEntry) bool { return n != curNode && n.parent != nil && fibEmpty(n) && fibLinked(n) ==> old(fibEmpty(n)) })
+//@   loop 2 invariant forall(func(c *fibStrategyTreeEntry) bool { return old(fibLinked(c)) && !fibLinked(c) ==> fibEmpty(c) })
+//@   loop 2 invariant forallIn(0, rangeindex+1, func(i int) bool { return curNode.parent.children[i] != curNode })
+
+// fibKidsUniq: a node is listed at most once among the children of its parent.
+func fibKidsUniq() bool {
+	return forall(func(n *fibStrategyTreeEntry, i int, j int) bool {
+		return implies(0 <= i && i < j && j < len(n.children), n.children[i] != n.children[j])
+	})
+}
+
+// ---------------------------------------------------------------------------------------
+// name tree: lookups
+// ---------------------------------------------------------------------------------------
+
+// FindNextHopsEnc: there is a node l that is the longest registered prefix of name (it is on the path and no child
+// continues the name) such that the result is exactly the next-hop list of the nearest node at or above l that has
+// next hops ("longest registered prefix that has next hops"); empty if there is none. The result is a copy.
+//
+//@ func (*FibStrategyTree).FindNextHopsEnc
+//@   invariant fibOneRoot(f)
+//@   invariant fibUpWf()
+//@   invariant fibKidsWf()
+//@   invariant fibHopsWf(f)
+//@   ensures forallIn(0, len(result), func(i int) bool { return result[i] != nil })
+//@   ensures [lpm] exists(func(l *fibStrategyTreeEntry) bool { return fibAtPrefix(f.root, l, name) && fibNoLonger(l, name) && fibHopsOf(fibHopNode(l), result) })
+//@   ensures [copy] len(result) > 0 ==> fresh(result)
+//@   loop 1 invariant len(nexthops) == 0
+//@   loop 1 invariant curNode != nil ==> curNode == f.root || curNode.parent != nil
+//@   loop 1 invariant fibHopNode(curNode) == fibHopNode(curNode)
+//@   loop 1 invariant exists(func(l *fibStrategyTreeEntry) bool { return fibAtPrefix(f.root, l, name) && fibNoLonger(l, name) && fibHopNode(l) == fibHopNode(curNode) })
+
+// FindStrategyEnc: the strategy of the nearest node at or above the longest registered prefix that has one; as long
+// as the root has a strategy, every name has one.
+//
+//@ func (*FibStrategyTree).FindStrategyEnc
+//@   invariant fibOneRoot(f)
+//@   invariant fibUpWf()
+//@   invariant fibKidsWf()
+//@   ensures [lpm] exists(func(l *fibStrategyTreeEntry) bool { return fibAtPrefix(f.root, l, name) && fibNoLonger(l, name) && (fibStratNode(l) == nil ==> result == nil) && (fibStratNode(l) != nil ==> sameSlice(result, fibStratNode(l).strategy)) })
+//@   ensures [root-strategy] f.root.strategy != nil ==> result != nil
+//@   loop 1 invariant strategy == nil
+//@   loop 1 invariant curNode != nil ==> curNode == f.root || curNode.parent != nil
+//@   loop 1 invariant curNode == nil ==> f.root.strategy == nil
+//@   loop 1 invariant fibStratNode(curNode) == fibStratNode(curNode)
+//@   loop 1 invariant exists(func(l *fibStrategyTreeEntry) bool { return fibAtPrefix(f.root, l, name) && fibNoLonger(l, name) && fibStratNode(l) == fibStratNode(curNode) })
+// ---------------------------------------------------------------------------------------
+// name tree: mutators. "Each mutator changes exactly one prefix's entry": at most one node's value changes, that node
+// sits at depth len(name) (for the removing mutators: on the path of name), all other nodes keep their next-hop list /
+// strategy (the same slice, and by the frame the same records).
+// ---------------------------------------------------------------------------------------
+
+// fibHasHop: e lists face `nexthop` with cost `cost`.
+func fibHasHop(e *fibStrategyTreeEntry, nexthop uint64, cost uint64) bool {
+	// (the first disjunct is an instance of the second; it only hands the solver the witness of the append path)
+	return (len(e.nexthops) > 0 && e.nexthops[len(e.nexthops)-1].Nexthop == nexthop && e.nexthops[len(e.nexthops)-1].Cost == cost) ||
+		existsIn(0, len(e.nexthops), func(i int) bool { return e.nexthops[i].Nexthop == nexthop && e.nexthops[i].Cost == cost })
+}
+
+//@ func (*FibStrategyTree).InsertNextHopEnc
+//@   option heap-closedness
+//@   requires f.fibPrefixes != nil
+//@   invariant fibUpWf()
+//@   invariant fibKidsWf()
+//@   invariant fibSep()
+//@   invariant fibCapWf()
+//@   invariant fibOneRoot(f)
+//@   invariant fibHopsWf(f)
+//@   invariant fibHopSep(f)
+//@   invariant fibHopCapWf(f)
+//@   modifies all(fibStrategyTreeEntry.children), all(fibKidsSliceT), all(baseFibStrategyEntry.name), all(baseFibStrategyEntry.nexthops), all(fibHopsSliceT), all(FibNextHopEntry.Cost), f.fibPrefixes[*]
+//@   ensures [present] exists(func(e *fibStrategyTreeEntry) bool { return e.depth == len(name) && (e == f.root || e.parent != nil) && fibHasHop(e, nexthop, cost) })
+//@   ensures [one-entry] forall(func(n *fibStrategyTreeEntry, m *fibStrategyTreeEntry) bool { return !sameSlice(n.nexthops, old(n.nexthops)) && !sameSlice(m.nexthops, old(m.nexthops)) ==> n == m })
+//@   ensures [changed-is-target] forall(func(n *fibStrategyTreeEntry) bool { return !sameSlice(n.nexthops, old(n.nexthops)) ==> n.depth == len(name) && fibHasHop(n, nexthop, cost) && len(n.nexthops) == old(len(n.nexthops))+1 })
+//@   ensures [cost-only-that-face] forall(func(h *FibNextHopEntry) bool { return !fresh(h) && h.Cost != old(h.Cost) ==> h.Nexthop == nexthop && h.Cost == cost })
+//@   loop 1 invariant forallIn(0, rangeindex+1, func(i int) bool { return entry.nexthops[i].Nexthop != nexthop })
+
+//@ func (*FibStrategyTree).ClearNextHopsEnc
+//@   invariant fibUpWf()
+//@   invariant fibKidsWf()
+//@   invariant fibSep()
+//@   invariant fibCapWf()
+//@   invariant fibKidsUniq()
+//@   invariant fibOneRoot(f)
+//@   invariant fibHopsWf(f)
+//@   invariant fibHopSep(f)
+//@   invariant fibHopCapWf(f)
+//@   modifies all(baseFibStrategyEntry.nexthops), all(fibStrategyTreeEntry.children), all(fibKidsSliceT), f.fibPrefixes[*]
+//@   ensures [one-entry] forall(func(n *fibStrategyTreeEntry, m *fibStrategyTreeEntry) bool { return !sameSlice(n.nexthops, old(n.nexthops)) && !sameSlice(m.nexthops, old(m.nexthops)) ==> n == m })
+//@   ensures [changed-is-target] forall(func(n *fibStrategyTreeEntry) bool { return !sameSlice(n.nexthops, old(n.nexthops)) ==> n.depth == len(name) && fibAtPrefix(f.root, n, name) && len(n.nexthops) == 0 })
+//@   ensures [pruned] forall(func(n *fibStrategyTreeEntry) bool { return n.parent != nil && fibEmpty(n) && fibLinked(n) ==> old(fibEmpty(n)) })
+
+//@ func (*FibStrategyTree).RemoveNextHopEnc
+//@   requires f.fibPrefixes != nil
+//@   invariant fibUpWf()
+//@   invariant fibKidsWf()
+//@   invariant fibSep()
+//@   invariant fibCapWf()
+//@   invariant fibKidsUniq()
+//@   invariant fibOneRoot(f)
+//@   invariant fibHopsWf(f)
+//@   invariant fibHopSep(f)
+//@   invariant fibHopCapWf(f)
+//@   modifies all(baseFibStrategyEntry.nexthops), all(fibHopsSliceT), all(fibStrategyTreeEntry.children), all(fibKidsSliceT), f.fibPrefixes[*]
+//@   ensures [one-entry] forall(func(n *fibStrategyTreeEntry, m *fibStrategyTreeEntry) bool { return !sameSlice(n.nexthops, old(n.nexthops)) && !sameSlice(m.nexthops, old(m.nexthops)) ==> n == m })
+//@   ensures [changed-is-target] forall(func(n *fibStrategyTreeEntry) bool { return !sameSlice(n.nexthops, old(n.nexthops)) ==> n.depth == len(name) && fibAtPrefix(f.root, n, name) && len(n.nexthops) == old(len(n.nexthops))-1 })
+//@   ensures [pruned] forall(func(n *fibStrategyTreeEntry) bool { return n.parent != nil && fibEmpty(n) && fibLinked(n) ==> old(fibEmpty(n)) })
+//@   loop 1 invariant forallIn(0, rangeindex+1, func(i int) bool { return entry.nexthops[i].Nexthop != nexthop })
+//@   loop 1 invariant forall(func(n *fibStrategyTreeEntry) bool { return sameSlice(n.nexthops, old(n.nexthops)) && sameSlice(n.children, old(n.children)) })
+
+// The root strategy can be replaced but never unset.
+//
+//@ func (*FibStrategyTree).SetStrategyEnc
+//@   option heap-closedness
+//@   invariant fibUpWf()
+//@   invariant fibKidsWf()
+//@   invariant fibSep()
+//@   invariant fibCapWf()
+//@   invariant fibOneRoot(f)
+//@   modifies all(fibStrategyTreeEntry.children), all(fibKidsSliceT), all(baseFibStrategyEntry.name), all(baseFibStrategyEntry.strategy)
+//@   ensures [set] exists(func(e *fibStrategyTreeEntry) bool { return e.depth == len(name) && (e == f.root || e.parent != nil) && e.strategy != nil && len(e.strategy) == len(strategy) && enc.SpecNameHash(e.strategy) == enc.SpecNameHash(strategy) })
+//@   ensures [one-entry] forall(func(n *fibStrategyTreeEntry, m *fibStrategyTreeEntry) bool { return !sameSlice(n.strategy, old(n.strategy)) && !sameSlice(m.strategy, old(m.strategy)) ==> n == m })
+//@   ensures [changed-is-target] forall(func(n *fibStrategyTreeEntry) bool { return !sameSlice(n.strategy, old(n.strategy)) ==> n.depth == len(name) && n.strategy != nil })
+//@   ensures [root-strategy] old(f.root.strategy != nil) ==> f.root.strategy != nil
+
+//@ func (*FibStrategyTree).UnSetStrategyEnc
+//@   invariant fibUpWf()
+//@   invariant fibKidsWf()
+//@   invariant fibSep()
+//@   invariant fibCapWf()
+//@   invariant fibKidsUniq()
+//@   invariant fibOneRoot(f)
+//@   modifies all(baseFibStrategyEntry.strategy), all(fibStrategyTreeEntry.children), all(fibKidsSliceT)
+//@   ensures [one-entry] forall(func(n *fibStrategyTreeEntry, m *fibStrategyTreeEntry) bool { return !sameSlice(n.strategy, old(n.strategy)) && !sameSlice(m.strategy, old(m.strategy)) ==> n == m })
+//@   ensures [changed-is-target] forall(func(n *fibStrategyTreeEntry) bool { return !sameSlice(n.strategy, old(n.strategy)) ==> n.depth == len(name) && fibAtPrefix(f.root, n, name) && n.strategy == nil })
+//@   ensures [root-strategy] old(f.root.strategy != nil) ==> f.root.strategy != nil
+//@   ensures [pruned] forall(func(n *fibStrategyTreeEntry) bool { return n.parent != nil && fibEmpty(n) && fibLinked(n) ==> old(fibEmpty(n)) })
+
+// Listings: exactly the nodes that hold next hops / a strategy. (container/list is not modelled by the engine.)
+//
+//@ func (*FibStrategyTree).GetAllFIBEntries
+//@   invariant fibOneRoot(f)
+//@   invariant fibUpWf()
+//@   invariant fibKidsWf()
+//@   ensures forallIn(0, len(result), func(i int) bool { return typeIs(result[i], "*fibStrategyTreeEntry") && len(result[i].(*fibStrategyTreeEntry).nexthops) > 0 })
+
+//@ func (*FibStrategyTree).GetAllForwardingStrategies
+//@   invariant fibOneRoot(f)
+//@   invariant fibUpWf()
+//@   invariant fibKidsWf()
+//@   ensures forallIn(0, len(result), func(i int) bool { return typeIs(result[i], "*fibStrategyTreeEntry") && result[i].(*fibStrategyTreeEntry).strategy != nil })
+
+// ---------------------------------------------------------------------------------------
+// hash-table FIB (fib-strategy-hashtable.go). View: realTable maps the hash of a registered prefix to its entry
+// (A-HASH: a name is identified by its hash). LIMIT: the trusted contract of Name.PrefixHash in std/encoding only says
+// that len(name)+1 values are returned; nothing links prefixHash[k] to the hash of name[:k] (nor to Name.Hash()), so
+// key-level clauses ("exactly the entry of name changes", longest-prefix order of the probes) cannot be discharged
+// here, and insertEntryEnc / pruneTables (which address the tables through prefixHash) are left without contract.
+// ---------------------------------------------------------------------------------------
+
+func (f *FibStrategyHashTable) hasReal(h uint64) bool {
+	_, ok := f.realTable[h]
+	return ok
+}
+
+// fibHtWf: every real-table slot holds an entry, and next-hop lists hold no nil record.
+func fibHtWf(f *FibStrategyHashTable) bool {
+	return f.realTable != nil && f.virtTable != nil && f.virtTableNames != nil &&
+		forall(func(h uint64) bool { return implies(f.hasReal(h), f.realTable[h] != nil) }) &&
+		forall(func(h uint64) bool { return implies(f.hasVirt(h), f.virtTable[h] != nil) })
+}
+
+func fibHtHopsWf() bool {
+	return forall(func(e *baseFibStrategyEntry, i int) bool {
+		return implies(0 <= i && i < len(e.nexthops), e.nexthops[i] != nil)
+	})
+}
+
+func (f *FibStrategyHashTable) hasVirt(h uint64) bool {
+	_, ok := f.virtTable[h]
+	return ok
+}
+
+// findLongestPrefixMatchEnc: the result is a registered entry (or nil).
+//
+//@ func (*FibStrategyHashTable).findLongestPrefixMatchEnc
+//@   requires fibHtWf(f) && f.m >= 0
+//@   ensures result != nil ==> exists(func(h uint64) bool { return f.hasReal(h) && f.realTable[h] == result })
+
+// FindNextHopsEnc: the result is the next-hop list of a registered entry that has next hops; never a nil record.
+// (C16: the LIVE list is returned, not a copy - unlike the name tree.)
+//
+//@ func (*FibStrategyHashTable).FindNextHopsEnc
+//@   requires fibHtWf(f) && fibHtHopsWf() && f.m >= 0
+//@   ensures forallIn(0, len(result), func(i int) bool { return result[i] != nil })
+//@   ensures [registered] len(result) > 0 ==> exists(func(h uint64) bool { return f.hasReal(h) && sameSlice(f.realTable[h].nexthops, result) })
+
+//@ func (*FibStrategyHashTable).FindStrategyEnc
+//@   requires fibHtWf(f) && f.m >= 0
+//@   ensures [registered] result != nil ==> exists(func(h uint64) bool { return f.hasReal(h) && sameSlice(f.realTable[h].strategy, result) })
+
+// UnSetStrategyEnc: the root strategy can be replaced but never unset; exactly one entry changes.
+//
+//@ func (*FibStrategyHashTable).UnSetStrategyEnc
+//@   requires fibHtWf(f) && f.m >= 0
+//@   modifies f.realTable[*], f.virtTable[*], f.virtTableNames[*], all(fibHtNameSetT), all(virtualDetails.md), all(baseFibStrategyEntry.strategy)
+//@   ensures [root-strategy] len(name) == 0 && old(f.hasReal(enc.SpecNameHash(name)) && f.realTable[enc.SpecNameHash(name)].strategy != nil) ==> f.hasReal(enc.SpecNameHash(name)) && f.realTable[enc.SpecNameHash(name)].strategy != nil
+//@   ensures [one-entry] forall(func(h uint64) bool { return h != enc.SpecNameHash(name) ==> f.hasReal(h) == old(f.hasReal(h)) && f.realTable[h] == old(f.realTable[h]) })
+//@   ensures [others-kept] forall(func(e *baseFibStrategyEntry) bool { return e != old(f.realTable[enc.SpecNameHash(name)]) ==> sameSlice(e.strategy, old(e.strategy)) })
+
+// SetStrategyEnc: the entry of name holds the strategy afterwards; no other entry changes its strategy.
+//
+//@ func (*FibStrategyHashTable).SetStrategyEnc
+//@   requires fibHtWf(f) && f.m >= 0
+//@   modifies f.realTable[*], f.virtTable[*], f.virtTableNames[*], all(fibHtNameSetT), all(virtualDetails.md), all(baseFibStrategyEntry.strategy)
+//@   ensures [set] strategy != nil ==> exists(func(h uint64) bool { return f.hasReal(h) && sameSlice(f.realTable[h].strategy, strategy) })
+
+// ClearNextHopsEnc: exactly the entry of name changes: it loses its next hops (and is dropped if nothing is left).
+//
+//@ func (*FibStrategyHashTable).ClearNextHopsEnc
+//@   requires fibHtWf(f) && f.m >= 0
+//@   modifies f.realTable[*], f.virtTable[*], f.virtTableNames[*], all(fibHtNameSetT), all(virtualDetails.md), all(baseFibStrategyEntry.nexthops)
+//@   ensures [cleared] f.hasReal(enc.SpecNameHash(name)) ==> len(f.realTable[enc.SpecNameHash(name)].nexthops) == 0
+//@   ensures [others-kept] forall(func(e *baseFibStrategyEntry) bool { return e != old(f.realTable[enc.SpecNameHash(name)]) ==> sameSlice(e.nexthops, old(e.nexthops)) })
+
+// GetAllFIBEntries / GetAllForwardingStrategies: only registered entries that hold next hops / a strategy are listed.
+//
+//@ func (*FibStrategyHashTable).GetAllFIBEntries
+//@   requires fibHtWf(f)
+//@   assume len(f.realTable) <= 72057594037927936
+//@   ensures forallIn(0, len(result), func(i int) bool { return typeIs(result[i], "*baseFibStrategyEntry") && len(result[i].(*baseFibStrategyEntry).nexthops) > 0 && exists(func(h uint64) bool { return f.hasReal(h) && f.realTable[h] == result[i].(*baseFibStrategyEntry) }) })
+//@   loop 1 invariant fresh(entries)
+//@   loop 1 invariant forallIn(0, len(entries), func(i int) bool { return typeIs(entries[i], "*baseFibStrategyEntry") && len(entries[i].(*baseFibStrategyEntry).nexthops) > 0 && exists(func(h uint64) bool { return f.hasReal(h) && f.realTable[h] == entries[i].(*baseFibStrategyEntry) }) })
+
+//@ func (*FibStrategyHashTable).GetAllForwardingStrategies
+//@   requires fibHtWf(f)
+//@   assume len(f.realTable) <= 72057594037927936
+//@   ensures forallIn(0, len(result), func(i int) bool { return typeIs(result[i], "*baseFibStrategyEntry") && result[i].(*baseFibStrategyEntry).strategy != nil && exists(func(h uint64) bool { return f.hasReal(h) && f.realTable[h] == result[i].(*baseFibStrategyEntry) }) })
+//@   loop 1 invariant fresh(entries)
+//@   loop 1 invariant forallIn(0, len(entries), func(i int) bool { return typeIs(entries[i], "*baseFibStrategyEntry") && entries[i].(*baseFibStrategyEntry).strategy != nil && exists(func(h uint64) bool { return f.hasReal(h) && f.realTable[h] == entries[i].(*baseFibStrategyEntry) }) })
+
+type fibHtNameSetT = map[string]int
